@@ -24,6 +24,10 @@ func (x *Exec) step(s *State, in ssa.Instruction, prev *ssa.BasicBlock) bool {
 			x.storeStruct(s, r, et, x.zeroTerm(et))
 			x.zeroGhost(s, r, et)
 			s.env[in] = TermVal{r}
+			if !in.Heap {
+				// a struct local whose address does not escape (go/ssa's own analysis): no callee can write it
+				x.stackStructs = append(x.stackStructs, stackStruct{r, et})
+			}
 		} else {
 			if at, ok := et.Underlying().(*types.Array); ok {
 				if _, isIface := at.Elem().Underlying().(*types.Interface); isIface && at.Len() <= 16 {
